@@ -150,11 +150,14 @@ func (r *Runner) OpenWith(o txfile.Options) error {
 }
 
 // OpenRaw opens the file without touching the model (txid of the current state is kept).
-func (r *Runner) OpenRaw() error {
+func (r *Runner) OpenRaw() error { return r.OpenRawWith(r.Options()) }
+
+// OpenRawWith is OpenRaw with explicit options.
+func (r *Runner) OpenRawWith(o txfile.Options) error {
 	if err := r.D.Lock(true, false); err != nil {
 		return err
 	}
-	f, err := txfile.VerifOpenWith(r.D, r.Options())
+	f, err := txfile.VerifOpenWith(r.D, o)
 	if err != nil {
 		r.D.Unlock()
 		return err
